@@ -16,7 +16,7 @@ COQ_IMPORTS = "From Mesa Require Import Model.DataCollector Model.Batch."
 COQ_CASE_TYPE = "Batch.case"
 COQ_RUN = "Batch.run_case"
 TABLE_CONSTRUCTS = ["br_loop_cond_code", "br_report_steps_code", "br_model_data_code", "br_param_values_code",
-                    "br_runs_list_code", "br_skeleton"]
+                    "br_runs_list_code", "br_results_code", "br_skeleton"]
 SHRINK = True
 RULE = ("histories = 1-2 batch_run calls on the scripted model class BM: parameter dictionaries over n, stop, ic, sc, ar, churn, k "
         "(ints, None) and two pass-through parameters (strings, dicts, lists as values) given as scalars, strings, lists, tuples, "
